@@ -25,7 +25,7 @@ def main() -> int:
     targets = []
     for pid in sorted(entries):
         P = importlib.import_module(f"props.{pid}")
-        for t in list(getattr(P, "LEAN_MODULES", [])) + ([P.DRIVER] if getattr(P, "DRIVER", None) else []):
+        for t in list(getattr(P, "LEAN_MODULES", [])) + list(getattr(P, "TIE_MODULES", [])) + ([P.DRIVER] if getattr(P, "DRIVER", None) else []):
             if t not in targets:
                 targets.append(t)
     print("lake build", " ".join(targets))
